@@ -165,16 +165,16 @@ def boundsStep (a : Act Int) (b : Bnds) : List (Option (Int × Int)) × Bnds :=
   | .new2 i t1 t2 => ([], { b with dist := upd b.dist i (some (undecorate t1, undecorate t2)) })
   | .copy i j _ => ([], { b with dist := upd b.dist i (b.dist j) })
   | .swap i j => ([], { b with dist := upd (upd b.dist i (b.dist j)) j (b.dist i) })
-  | .draw i => ([b.dist i], b)
+  | .draw i _ => ([b.dist i], b)
   | .reset _ => ([], b)
   | .setParam i p => ([], { b with dist := upd b.dist i (some (pq p)) })
   | .eq _ _ => ([none], b)
   | .look i => ([b.dist i], b)
-  | .varD k i => ([], { b with var := upd b.var k (b.dist i) })
-  | .varP k p => ([], { b with var := upd b.var k (some (pq p)) })
+  | .varD k i _ => ([], { b with var := upd b.var k (b.dist i) })
+  | .varP k p _ => ([], { b with var := upd b.var k (some (pq p)) })
   | .varCopy k l _ => ([], { b with var := upd b.var k (b.var l) })
   | .vdraw k => ([b.var k], b)
-  | .raw => ([none], b)
+  | .raw _ => ([none], b)
 
 def boundsScript : List (Act Int) → Bnds → List (Option (Int × Int))
   | [], _ => []
@@ -185,7 +185,7 @@ def ActValid : Act Int → Prop
   | .newP _ p => undecorate p.fst ≤ undecorate p.snd
   | .new2 _ t1 t2 => undecorate t1 ≤ undecorate t2
   | .setParam _ p => undecorate p.fst ≤ undecorate p.snd
-  | .varP _ p => undecorate p.fst ≤ undecorate p.snd
+  | .varP _ p _ => undecorate p.fst ≤ undecorate p.snd
   | _ => True
 
 /-- the observations respect the requested intervals, one by one -/
